@@ -87,6 +87,9 @@ func opCause(r *OpResult) string {
 // operation plus the flags that select a different code path.
 func opSigName(o *OpSpec) string {
 	n := o.Op
+	if o.Op == "cli" {
+		n = "cli-" + o.CLIKind
+	}
 	if o.Replace {
 		n += "+replace"
 	}
